@@ -309,7 +309,8 @@ End Session.
 
 (* ---- an executable user state machine for extraction ---------------------- *)
 (* state: a 64-bit accumulator; Update folds the command into it and returns
-   (Value := new accumulator, Data := the first two bytes of the command). The
+   (Value := new accumulator, Data := the first two bytes of the command) or one
+   of the boundary result shapes below. The
    result depends on the state, so one application too many or too few changes
    every later result. The Go harness implements the same machine. *)
 
@@ -320,9 +321,25 @@ Definition acc_hash (cmd : bytes) : N :=
 
 Definition acc_result : Type := N * bytes.
 
+(* The first command byte selects the SHAPE of the result, so that the boundary
+   results are part of the compared domain:
+     0xE0  the zero sm.Result (Value 0, nil Data)
+     0xE1  Value 0, empty non-nil Data   (same observation as 0xE0: Data is compared as a byte string)
+     0xE2  Value <> 0, nil Data
+     0xE3  Value 0, non-empty Data
+     else  Value = accumulator, Data = first two command bytes
+   The accumulator is updated in every case: an application with an empty result
+   is still an application. *)
 Definition acc_update (s : N) (cmd : bytes) : N * acc_result :=
   let s' := (s * 31 + acc_hash cmd) mod two64 in
-  (s', (s', firstn 2 cmd)).
+  match cmd with
+  | b :: _ =>
+    if (b =? 224) || (b =? 225) then (s', (0, []))
+    else if b =? 226 then (s', (s', []))
+    else if b =? 227 then (s', (0, firstn 2 cmd))
+    else (s', (s', firstn 2 cmd))
+  | [] => (s', (s', []))
+  end.
 
 Definition acc_save (s : N) : bytes := le 8 s.
 Definition acc_recover (b : bytes) : option N :=
